@@ -289,7 +289,10 @@ class C07Runner:
 				if p['status'] == 'ok':
 					self.bump('probes', 'submission transpiled')
 					fresh = self.fresh_answer(proj, init, sub)
-					if fresh.get('status') != 'ok' or fresh.get('text') != p['text']:
+					if fresh.get('status') != 'ok':
+						# a text a fresh process rejects but this session accepts (state left by earlier submissions): history dependence is C04's subject
+						self.bump('probes', 'session accepted a text that a fresh process rejects (C04 territory, not judged)')
+					elif fresh.get('text') != p['text']:
 						self.violation('recovery-differs-from-fresh-process', k, {'text': sub[:200], 'fresh_status': fresh.get('status')})
 					elif any(x.get('status') == 'error' for x in parsed[:k]):
 						self.bump('probes', 'valid submission after damaged ones == fresh process')
@@ -380,7 +383,7 @@ class C07(Engine):
 		'plus the same damaged texts written as on-disk modules and loaded in separate processes; invariants: nothing but Errors.Error escapes, the loop survives until exit and prints Quit once, '
 		'every erroneous submission gets an error block, valid submissions after damaged ones equal a fresh process, disk and memory paths agree on Errors.Syntax, rendering never fails, termination. '
 		'distinct_nontrivial = distinct (text, path kind) inputs delivered')
-	quick_runs = 90
+	quick_runs = 330
 	thorough_runs = 4000
 	quick_budget_s = 100.0
 	thorough_budget_s = 1500.0
